@@ -249,6 +249,31 @@ def stepOp (s : St) (kind : String) (toks : List String) : St × String :=
 
 end Drv08
 
+/-- C19 `hs`: what the serving side of the same connection answers after the handshake (`connectOps` of
+    Props/C19.lean: the key and readiness written by `initialise_connection` are the serving loop's) to
+    RoomList, HardwareFingerprint and RoomNode(private room), on the instance's initial world -/
+def servedAfter (out : String) : String :=
+  let toks := tokens out
+  let ready := (Drv08.flag? toks "ready").getD true
+  let key : Option Room.Key := match kv? toks "key" with
+    | some k => k.toNat?
+    | none => none
+  let w := Drv08.St.init.w
+  let c0 : Conn := { Conn.init with key := key, ready := if key.isSome then ready else true }
+  let (c1, a1) := serve Drv08.d code w Drv08.own c0 .roomList
+  let (c2, a2) := serve Drv08.d code w Drv08.own c1 .hardwareFingerprint
+  let (_, a3) := serve Drv08.d code w Drv08.own c2 (.roomNode 0)
+  let f : Answer → String := fun a => match a with
+    | .silent => "silent"
+    | .refused => "refused"
+    | .identity => "identity"
+    | .fingerprint => "fingerprint"
+    | .roomList rooms =>
+      let body := joinWith "+" ((rooms.foldr Drv08.insertNat []).map toString)
+      if body = "" then "rooms" else "rooms:" ++ body
+    | .data _ _ => "data"
+  s!"{out} serve={f a1}|{f a2}|{f a3}"
+
 inductive Mode where
   | none
   | c08 (s : Drv08.St)
@@ -270,7 +295,9 @@ def stepLine (m : Mode) (line : String) : Mode × String :=
       if ["now", "room", "group", "member", "row", "ref", "delref", "delrow", "open", "auth", "q"].contains kind then
         let (s', o) := Drv08.stepOp s kind rest; (.c08 s', o)
       else (m, "bad-op")
-    | .c19 s => let (s', o) := Discret.Handshake.Drv.stepOp s kind rest; (.c19 s', o)
+    | .c19 s =>
+      let (s', o) := Discret.Handshake.Drv.stepOp s kind rest
+      (.c19 s', if kind = "hs" && o != "bad-op" then servedAfter o else o)
     | .none => (m, "bad-op")
   | [] => (m, "bad-op")
 
